@@ -573,3 +573,33 @@ fn c20_batch_adjacent_pair_one_window() {
     }
     kani::cover!(d.di.nb == 1 && x == 238);
 }
+
+/// BOUNDED stand-in (batch mode, one concrete geometry, colours symbolic): two vertically adjacent pixels (3,5) and (3,6) with
+/// arbitrary colours are sent as ONE 1x2 window whose burst carries the two colours in stream order - a block merged from rows
+/// keeps every row's own colours (C03), within one window (C20)
+#[cfg(feature = "batch")]
+#[kani::proof]
+#[kani::unwind(4)]
+fn c03_batch_vertical_pair_colours() {
+    use embedded_graphics_core::draw_target::DrawTarget;
+    use embedded_graphics_core::geometry::Point;
+    use embedded_graphics_core::Pixel;
+    use embedded_graphics_core::pixelcolor::{raw::RawU16, Rgb565};
+    let clock = Clock::new();
+    let r = crate::Builder::new(FbModel::<240, 320>, Tiny2::new()).reset_pin(MockPin::new(&clock)).init(&mut MockDelay(&clock));
+    let mut d = match r { Ok(d) => d, Err(_) => { kani::assume(false); unreachable!() } };
+    d.di = Tiny2::new();
+    let (c0, c1): (u16, u16) = (kani::any(), kani::any());
+    let mk = |y: i32, c: u16| Pixel(Point::new(3, y), Rgb565::from(RawU16::new(c)));
+    let r = d.draw_iter([mk(5, c0), mk(6, c1)]);
+    kani::assert(r.is_ok(), "C02: draw_iter returned an error on a fault-free bus");
+    let b0 = d.di.b[0];
+    let which: u8 = kani::any();
+    if which == 0 { kani::assert(!d.di.bad && d.di.nb == 1, "C20: two vertically adjacent pixels must share one window"); }
+    if which == 1 && d.di.nb == 1 {
+        kani::assert(b0.sx == 3 && b0.ex == 3 && b0.sy == 5 && b0.ey == 6 && b0.n == 2
+                     && u16::from_be_bytes(b0.px[0]) == c0 && u16::from_be_bytes(b0.px[1]) == c1, "C03: C08: the burst is not the two pixels in order in a 1x2 window");
+    }
+    kani::cover!(d.di.nb == 1 && c0 == c1);
+    kani::cover!(d.di.nb == 1 && c0 != c1);
+}
